@@ -5,6 +5,7 @@ import (
 	"encoding/json"
 	"fmt"
 	"math/rand"
+	"os"
 	"runtime"
 	"sync"
 	"sync/atomic"
@@ -78,7 +79,13 @@ func newScenario(seed int64, maxDur time.Duration, st *stats) (*scenario, error)
 
 	prof := FaultProfile{MaxLatency: 3 * time.Millisecond, Slow: 1200 * time.Millisecond}
 	longSlow := false
-	switch r.Intn(6) {
+	kind := r.Intn(6)
+	if os.Getenv("RACE_ONLY") == "longslow" {
+		// the supervisor's first child runs nothing but these: they need 2.5 s of undisturbed run each, and a library panic
+		// provoked by the life-cycle churn of a neighbouring scenario (sync: WaitGroup is reused, see D15) would end them early
+		kind = 4
+	}
+	switch kind {
 	case 4, 5:
 		// heartbeat answers that arrive after the library's own 1 s time-out while the term goes on
 		prof.SlowUpdate = 250
